@@ -68,6 +68,36 @@ func init() {
 		},
 	})
 	register(&Property{
+		ID: "C03",
+		Explanation: "Decides the inductive skeleton behind `every match is a faithful, ordered, located slice`: (R1) single writer - the text/offset/line/column fields of the VM state are stored only by CONSUME, Set and the constructors; (R2) coherent step - CONSUME appends exactly the string it read and advances the offset by that string's length, updating line/column in a range over the same string; (R3) the match record is built from the start/current counters, the value from currentMatch, the number from the parameter, and CreateState starts current* and start* from the same argument with an empty text; (R4) a match is pushed only when non-empty, numbered matchNumber+1, and the next attempt starts at its end (scan discipline). " +
+			"Does NOT decide that Reader.Read returns the bytes at the offset (C07), column arithmetic for multi-byte input, nor the arithmetic itself.",
+		Assumptions: commonAssumptions,
+		Rules: []RuleFn{
+			{Name: "C03.R1", Run: func(c *Ctx) { ruleSingleWriter(c, "C03.R1") }},
+			{Name: "C03.R2", Run: func(c *Ctx) { ruleCoherentStep(c, "C03.R2") }},
+			{Name: "C03.R3", Run: func(c *Ctx) { ruleRecordConstruction(c, "C03.R3") }},
+			{Name: "C03.R4", Run: func(c *Ctx) { ruleScanDiscipline(c, "C03.R4"); ruleWindow(c, "C03.R4b") }},
+			{Name: "C03.R5", Run: func(c *Ctx) { ruleBindingProvenance(c, "C03.R5") }},
+		},
+	})
+	register(&Property{
+		ID: "C05",
+		Explanation: "Decides the structural conditions of `a replacement is the concatenation of its with-items for that match`: (R1) dispatch completeness for with-items (AstAtom -> generator, ReplaceInstruction -> executeReplace); (R2) every store to the replacement text appends to the previous text, and match records are written only by MakeMatch (plus Replacement by the two write primitives); (R3) every match gets a replacer state initialised for it inside the loop, and its match is what is reported; (R4) built-ins are added to a deep copy of the match's variables; (R6) the kind of a with-item depends only on the transform table, and WRITEVAR appends exactly when the name is bound to a string. " +
+			"Does NOT decide what a transform computes (C11) nor the order of items beyond program order.",
+		Assumptions: commonAssumptions,
+		Rules: []RuleFn{
+			{Name: "C05.R1", Run: func(c *Ctx) {
+				ruleTypeSwitchComplete(c, "C05.R1", []string{"bytecode", "engine"}, func(n *types.Named) bool {
+					return n.Obj().Name() == "AstAtom" || n.Obj().Name() == "ReplaceInstruction"
+				}, 2)
+			}},
+			{Name: "C05.R2", Run: func(c *Ctx) { ruleReplacementAccumulates(c, "C05.R2") }},
+			{Name: "C05.R3", Run: func(c *Ctx) { rulePerMatchReplacer(c, "C05.R3") }},
+			{Name: "C05.R5", Run: func(c *Ctx) { rulePlumbing(c, "C05.R5") }},
+			{Name: "C05.R6", Run: func(c *Ctx) { ruleItemKinds(c, "C05.R6") }},
+		},
+	})
+	register(&Property{
 		ID: "C04",
 		Explanation: "Decides that the amount clause can only select a window of one fixed match sequence: (R1) non-interference - in the scan loop of findMatches neither the next scan position/line/column/match counter, nor the arguments of CreateState and MakeMatch, are data-dependent on skip/take/last or control-dependent on a branch whose condition depends on them (loop-exit branches exempt: they truncate); (R2) a match is pushed exactly under success && non-empty && matchNumber >= skip, numbered matchNumber+1, the loop bound is matchNumber < skip+take, Limit(last) follows every push when last != 0 and drops from the front; (R3) the five clause forms of parse_amount return the documented (all, skip, take, last) tuples; (R4) the four values keep their identity from parser to generator to findMatches for both find and replace. " +
 			"Does NOT decide the queue's arithmetic beyond that Limit pops from the front.",
